@@ -62,6 +62,9 @@ type c38Op struct {
 	kind  string        // rewrite | slowwrite | rename | remove | create | swap | retarget
 	gap   time.Duration // pause before the operation
 	pause time.Duration // slowwrite: pause between truncation and write
+	// reactive operation: performed right after the server has handled the signal caused by the previous
+	// operation (a change that follows a notification by microseconds, e.g. an editor saving twice)
+	afterSignal bool
 }
 
 type c38Schedule struct {
@@ -77,7 +80,11 @@ func (s c38Schedule) String() string {
 		sb.WriteString(" (no pause after Initialize)")
 	}
 	for _, o := range s.ops {
-		fmt.Fprintf(&sb, " +%dms %s", o.gap.Milliseconds(), o.kind)
+		if o.afterSignal {
+			fmt.Fprintf(&sb, " +rightAfterSignal %s", o.kind)
+		} else {
+			fmt.Fprintf(&sb, " +%dms %s", o.gap.Milliseconds(), o.kind)
+		}
 		if o.kind == "slowwrite" {
 			fmt.Fprintf(&sb, "(%dms)", o.pause.Milliseconds())
 		}
@@ -117,6 +124,10 @@ func c38ScheduleGen(t *rapid.T, maxOps int, spaced bool) c38Schedule {
 		o := c38Op{kind: rapid.SampledFrom(kinds).Draw(t, "op")}
 		if i > 0 {
 			o.gap = rapid.SampledFrom(c38Gaps).Draw(t, "gap")
+			if !spaced && rapid.SampledFrom([]bool{false, false, true, false}).Draw(t, "afterSignal") {
+				o.afterSignal = true
+				o.gap = 0
+			}
 		}
 		if o.kind == "slowwrite" {
 			o.pause = rapid.SampledFrom([]time.Duration{30 * time.Millisecond, 5 * time.Millisecond, 150 * time.Millisecond}).Draw(t, "pause")
@@ -240,7 +251,23 @@ func c38Play(s c38Schedule, spaced bool) (out c38Outcome) {
 
 	// ---- play -----------------------------------------------------------------------------
 	var changeTimes []time.Time
+	sigAtPrevOp := 0
 	for i, op := range s.ops {
+		if op.afterSignal {
+			deadline := time.Now().Add(2500 * time.Millisecond)
+			for {
+				mu.Lock()
+				n := out.signals
+				mu.Unlock()
+				if n > sigAtPrevOp || time.Now().After(deadline) {
+					break
+				}
+				time.Sleep(200 * time.Microsecond)
+			}
+		}
+		mu.Lock()
+		sigAtPrevOp = out.signals
+		mu.Unlock()
 		time.Sleep(op.gap)
 		if spaced {
 			// keep clear of the debounce window: at least 1.5 s after the previous operation (whose signal
